@@ -139,6 +139,41 @@ def features(node):
     return '+'.join(sorted(fs)[:6])
 
 
+def own_nodes(scope_node):
+    """Nodes evaluated in THIS scope: nested def/class/lambda bodies are excluded (their decorators, defaults, annotations, bases
+    are included); of a comprehension only the first iterable belongs to the enclosing scope."""
+    def rec(n, top):
+        yield n
+        if not top and isinstance(n, (ast.FunctionDef, ast.AsyncFunctionDef)):
+            kids = n.decorator_list + n.args.defaults + [d for d in n.args.kw_defaults if d] + \
+                [x.annotation for x in n.args.posonlyargs + n.args.args + n.args.kwonlyargs + [y for y in (n.args.vararg, n.args.kwarg) if y] if x.annotation] + ([n.returns] if n.returns else [])
+        elif not top and isinstance(n, ast.ClassDef):
+            kids = n.decorator_list + n.bases + [k.value for k in n.keywords]
+        elif not top and isinstance(n, ast.Lambda):
+            kids = n.args.defaults + [d for d in n.args.kw_defaults if d]
+        elif not top and isinstance(n, (ast.ListComp, ast.SetComp, ast.DictComp, ast.GeneratorExp)):
+            kids = [n.generators[0].iter]
+        else:
+            kids = list(ast.iter_child_nodes(n))
+        for k in kids:
+            yield from rec(k, False)
+    if isinstance(scope_node, (ast.ListComp, ast.SetComp, ast.DictComp, ast.GeneratorExp)):
+        # a comprehension scope: everything except its first iterable and nested scopes
+        def rc(n):
+            yield from rec(n, False)
+        for g_i, g in enumerate(scope_node.generators):
+            yield from rc(g.target)
+            if g_i:
+                yield from rc(g.iter)
+            for c in g.ifs:
+                yield from rc(c)
+        for fld in ('elt', 'key', 'value'):
+            if hasattr(scope_node, fld):
+                yield from rc(getattr(scope_node, fld))
+        return
+    yield from rec(scope_node, True)
+
+
 def classify_name_diff(kind, name, where, scope_node, orig_tree):
     """Mechanism key computed from reference-side facts only."""
     # where: 'missing' (symtable has it, pfst not) / 'extra' / 'class:<cat>'
@@ -158,23 +193,32 @@ def classify_name_diff(kind, name, where, scope_node, orig_tree):
                 header += [n.value]
             if any(isinstance(x, ast.Name) and x.id == name for h in header for x in ast.walk(h)):
                 return 'type-param-annotation-scope'
-    if where == 'missing':
-        # is the name a capture string on a non-Name node inside this scope?
-        for n in ast.walk(scope_node):
+    if where.startswith('missing'):
+        cap = None
+        own = list(own_nodes(scope_node))
+        for n in own:  # is the name a capture string on a non-Name node of THIS scope?
             if isinstance(n, ast.ExceptHandler) and n.name == name:
-                return 'capture-name:ExceptHandler.name'
-            if isinstance(n, ast.MatchAs) and n.name == name:
-                return 'capture-name:MatchAs.name'
-            if isinstance(n, ast.MatchStar) and n.name == name:
-                return 'capture-name:MatchStar.name'
-            if isinstance(n, ast.MatchMapping) and n.rest == name:
-                return 'capture-name:MatchMapping.rest'
-        # inside the first iterable (not a bare Name) of a comprehension that belongs to this scope
-        for n in ast.walk(scope_node):
+                cap = 'capture-name:ExceptHandler.name'
+            elif isinstance(n, ast.MatchAs) and n.name == name:
+                cap = 'capture-name:MatchAs.name'
+            elif isinstance(n, ast.MatchStar) and n.name == name:
+                cap = 'capture-name:MatchStar.name'
+            elif isinstance(n, ast.MatchMapping) and n.rest == name:
+                cap = 'capture-name:MatchMapping.rest'
+            if cap:
+                break
+        fi = None
+        for n in own:  # inside the first iterable (not a bare Name) of a comprehension that belongs to this scope
             if isinstance(n, (ast.ListComp, ast.SetComp, ast.DictComp, ast.GeneratorExp)) and n.generators:
                 it = n.generators[0].iter
                 if not isinstance(it, ast.Name) and any(isinstance(x, ast.Name) and x.id == name for x in ast.walk(it)):
-                    return 'first-iter-not-a-Name'
+                    fi = 'first-iter-not-a-Name'
+                    break
+        if where == 'missing:load':
+            return fi or cap or f'scope-names-missing:{kind}'
+        if cap or fi:
+            return cap or fi
+        where = 'missing'
     return f'scope-names-{where}:{kind}'
 
 
@@ -199,7 +243,7 @@ def compare_scope(ctx, f, tab, node, orig_tree, path, fn, kind):
     rnames = set(rf) - tparams - BOTH_DROP
     if '*' in pnames:
         pnames.discard('*')
-    case = {'file': fn, 'path': list(path), 'kind': kind, 'scope_src': short(ast.get_source_segment(open(fn).read(), node) or '', 600) if fn != 'GRAMMAR' and not isinstance(node, ast.Module) else None}
+    case = {'file': fn, 'path': list(path), 'kind': kind, 'scope_src': short(ast.get_source_segment(_CUR['src'], node) or '', 600) if fn != 'GRAMMAR' and not isinstance(node, ast.Module) else None}
     for n in sorted(rnames - pnames):
         key = classify_name_diff(kind, n, 'missing', node, orig_tree)
         ctx.violation(key, f'{kind} scope at {fn}:{getattr(node, "lineno", 0)}: symtable records name {n!r} ({rf[n]}), scope_symbols() does not report it', dict(case, name=n))
@@ -216,7 +260,9 @@ def compare_scope(ctx, f, tab, node, orig_tree, path, fn, kind):
             ctx.count('augassign_target_counted_as_load(documented)')
         elif ('load' in p) != r['load']:
             diffs.append(f"load pfst={'load' in p} symtable.is_referenced={r['load']}")
-        if (('store' in p) or ('del' in p)) != r['bound']:
+        if kind == 'module' and r['global'] and not r['bound']:
+            ctx.count('module_name_only_declared_global_in_symtable(walrus in comprehension or nested global: bound not judged)')
+        elif (('store' in p) or ('del' in p)) != r['bound']:
             diffs.append(f"bound pfst store/del={sorted(p & {'store', 'del'})} symtable assigned|param|imported={r['bound']}")
         if ('global' in p) != r['global']:
             diffs.append(f"global pfst={'global' in p} symtable.is_declared_global={r['global']}")
@@ -234,7 +280,7 @@ def compare_scope(ctx, f, tab, node, orig_tree, path, fn, kind):
             key = f'scope-classification:{kind}:{what}'
             if kind == 'module' and what == 'global':
                 continue  # CPython propagates a function's 'global x' declaration to the module symbol: representation only
-            k2 = classify_name_diff(kind, n, 'missing', node, orig_tree)
+            k2 = classify_name_diff(kind, n, 'missing:load' if what in ('load', 'free') else 'missing', node, orig_tree)
             if k2 == 'type-param-annotation-scope':
                 key = k2
             elif what in ('bound', 'local', 'free') and k2.startswith('capture-name'):
@@ -403,7 +449,11 @@ def validate_owner_visitor(node, owners, tab):
     return names
 
 
+_CUR = {'src': ''}
+
+
 def check_program(ctx, FST, src, fn):
+    _CUR['src'] = src
     try:
         orig = ast.parse(src)
     except SyntaxError:
@@ -499,6 +549,54 @@ TORTURE = [
 ]
 
 
+NAMES = ['a', 'b', 'c', 'd', 'e']
+
+
+def gen_scope_program(rnd, depth=0, kind='module', bound_outer=()):
+    """Random scoping program: every name of a 5-name pool is used in a random subset of binding/reference forms in nested
+    scopes. Programs the compiler rejects (nonlocal without binding, use before global ...) are skipped by check_program."""
+    N = lambda: rnd.choice(NAMES)
+    ind = '    ' * depth
+    lines = []
+    if kind == 'def' and rnd.random() < 0.35:
+        lines.append(f'{ind}global {N()}')
+    if kind == 'def' and bound_outer and rnd.random() < 0.35:
+        lines.append(f'{ind}nonlocal {rnd.choice(list(bound_outer))}')
+    if kind == 'class' and rnd.random() < 0.15:
+        lines.append(f'{ind}global {N()}')
+    simple = [
+        lambda: f'{N()} = {N()}', lambda: f'print({N()}, {N()})', lambda: f'del {N()}', lambda: f'{N()} += {N()}',
+        lambda: f'for {N()} in {N()}: pass', lambda: f'with {N()} as {N()}: pass', lambda: f'import {N()}', lambda: f'import {N()}.{N()}.{N()}',
+        lambda: f'import {N()}.{N()} as {N()}', lambda: f'from x import {N()} as {N()}', lambda: f'from x.y import {N()}',
+        lambda: f'try: pass\n{ind}except {N()} as {N()}: print({N()})', lambda: f'{N()} = [{N()} for {N()} in {N()} if {N()}]',
+        lambda: f'{N()} = [({N()} := {N()}) for {N()} in {N()}]', lambda: f'print({{{N()}: {N()} for {N()} in {{{N()}: {N()} for {N()} in {N()}}}}})',
+        lambda: f'print(list({N()} for {N()} in {N()}({N()})))', lambda: f'print([{N()} for {N()} in {N()}.{N()}[{N()}] for {N()} in {N()}])',
+        lambda: f'{N()} = lambda {N()}, {N()}={N()}: ({N()}, {N()})', lambda: f'{N()}: {N()} = {N()}', lambda: f'{N()}: {N()}',
+        lambda: f'del {N()}, {N()}[0], {N()}.{N()}', lambda: f'({N()}, [{N()}, *{N()}]) = {N()}', lambda: f'if ({N()} := {N()}): pass',
+        lambda: f'print([{N()} for {N()} in [{N()} for {N()} in {N()}]])', lambda: f'print([lambda: {N()} for {N()} in {N()}])',
+        lambda: f'print({{{N()} for {N()} in ({N()} for {N()} in {N()})}})', lambda: f'async def g{depth}():\n{ind}    return [await {N()} async for {N()} in {N()}]',
+    ]
+    bound = set()
+    for _ in range(rnd.randint(2, 6)):
+        r = rnd.random()
+        if r < 0.72 or depth >= 3:
+            st = rnd.choice(simple)()
+            lines.append(ind + st)
+        elif r < 0.88:
+            p1, p2 = N(), N()
+            head = f'{ind}def f{depth}_{len(lines)}({p1}, {p2}={N()}, *{N()}s, **{N()}k) -> {N()}:' if rnd.random() < 0.6 else f'{ind}def f{depth}_{len(lines)}():'
+            body = gen_scope_program(rnd, depth + 1, 'def', tuple(bound) if kind == 'def' else ())
+            lines.append(('' if rnd.random() < 0.7 else f'{ind}@{N()}\n') + head + '\n' + body)
+        else:
+            lines.append(f'{ind}class K{depth}_{len(lines)}({N()}, m={N()}):\n' + gen_scope_program(rnd, depth + 1, 'class', bound_outer if kind != 'def' else tuple(bound)))
+        if kind == 'def':
+            import re as _re
+            m = _re.match(r'\s*(\w) =', lines[-1])
+            if m:
+                bound.add(m.group(1))
+    return '\n'.join(lines) + ('\n' if depth == 0 else '')
+
+
 def run(ctx):
     from fst import FST
     from .. import corpus
@@ -506,6 +604,15 @@ def run(ctx):
         if ctx.mine(i):
             check_program(ctx, FST, src, 'GRAMMAR')
             ctx.count('torture_programs')
+    import random as _random
+    ngen = 150 if ctx.tier == 'quick' else 4000
+    for k in range(ngen):
+        if ctx.out_of_time():
+            break
+        gs = ctx.seed * 1000003 + ctx.shard * 100000 + k
+        src = gen_scope_program(_random.Random(gs))
+        check_program(ctx, FST, src, f'GEN:{gs}')
+        ctx.count('generated_scope_programs')
     files = corpus.real_files()
     order = list(range(len(files)))
     __import__('random').Random(ctx.seed).shuffle(order)
@@ -526,5 +633,8 @@ def replay(ctx, case):
     if fn == 'GRAMMAR':
         for src in TORTURE:
             check_program(ctx, FST, src, 'GRAMMAR')
+    elif fn.startswith('GEN:'):
+        import random as _random
+        check_program(ctx, FST, gen_scope_program(_random.Random(int(fn[4:]))), fn)
     else:
         check_program(ctx, FST, open(fn).read(), fn)
